@@ -6,7 +6,7 @@ import hashlib, json, os, re, shutil, subprocess, sys, time, glob
 from concurrent.futures import ThreadPoolExecutor
 
 VERIF = os.path.dirname(os.path.abspath(__file__))
-REPO = '/repo'
+REPO = os.environ.get('VERIF_REPO', '/repo')   # VERIF_REPO: run against a scratch worktree (mutant testing only)
 WORK = os.path.join(VERIF, '.work')
 GOENV = dict(os.environ, GOFLAGS='-mod=mod', GOPROXY='off', GOSUMDB='off', GOTOOLCHAIN='local',
              GOCACHE=os.path.join(VERIF, '.cache', 'gocache'))
@@ -40,6 +40,9 @@ def build_harness(wd):
     src = os.path.join(wd, 'hsrc')
     shutil.copytree(os.path.join(VERIF, 'harness'), src)
     shutil.copy(os.path.join(REPO, 'go.sum'), os.path.join(src, 'go.sum'))
+    if REPO != '/repo':
+        gm = os.path.join(src, 'go.mod')
+        open(gm, 'w').write(open(gm).read().replace('=> /repo', '=> ' + REPO))
     out = os.path.join(wd, 'vh')
     os.makedirs(GOENV['GOCACHE'], exist_ok=True)
     r = sh([GO, 'build', '-tags', 'verif', '-o', out, '.'], cwd=src, env=GOENV)
